@@ -760,6 +760,12 @@ func (d *Dev) execIOSACLSub(e *Entry, neg bool, w []string) error {
 	}
 	text := strings.Join(w, " ")
 	if w[0] != "remark" {
+		// IOS knows "any" only (any4 / any6 are ASA keywords)
+		for _, t := range w {
+			if t == "any4" || t == "any6" {
+				return fmt.Errorf("invalid input %q in ACL entry %q", t, text)
+			}
+		}
 		for _, s := range e.Subs {
 			if stripLog(s) == stripLog(text) && fields(s)[0] != "remark" {
 				return fmt.Errorf("duplicate ACL entry %q in %q", text, e.Line)
